@@ -70,15 +70,26 @@ def rule_r3(repo):
     if len(res) != 1 or not res[0].ok or repr(res[0].value) != 'VALUES_ALL':
         rr.fail('FlatJsonRenderer._render_template_data', fi.where, 'the flat JSON of the data section is %s, not the decoded value lists unchanged' % (
             [repr(r.value) if r.ok else r.describe() for r in res]))
-    # parameters of the other sections are passed through unchanged as well
+    # parameters of the other sections are passed through unchanged as well: the whole renderer folded on a scripted message
     fm = repo.own_method('FlatJsonRenderer', '_render_bufr_message')
-    ok = False
-    for n in ast.walk(fm.node):
-        if isinstance(n, ast.Call) and norm(n.func) == 'section_data.append' and n.args and norm(n.args[0]) == 'parameter.value':
-            ok = True
-    rr.instance('FlatJsonRenderer._render_bufr_message appends parameter.value unchanged')
-    if not ok:
-        rr.fail('FlatJsonRenderer._render_bufr_message', fm.where, 'section parameters are not rendered as parameter.value')
+    from sa.rules.c04 import SectionModel, SecInterp, param
+    rows = Sym('VALUES_ALL')
+    td = Obj('TemplateDataStub', {'decoded_values_all_subsets': rows})
+    secs = [SectionModel([param('start_signature', 32, 'bytes', value=Sym('SIG')), param('length', 24, value=Sym('LEN'))], {'index': 0}),
+            SectionModel([param('section_length', 24, value=Sym('SL3')), param('n_subsets', 16, value=Sym('NSUB')),
+                          param('unexpanded_descriptors', 0, 'unexpanded_descriptors', value=Sym('DESCS'))], {'index': 3}),
+            SectionModel([param('section_length', 24, value=Sym('SL4')), param('template_data', 0, 'template_data', value=td)], {'index': 4}),
+            SectionModel([param('stop_signature', 32, 'bytes', value=Sym('STOP'))], {'index': 5})]
+    it2 = SecInterp(repo, 'FlatJsonRenderer')
+    res = it2.run_function(fm, lambda: {'self': Obj('FlatJsonRenderer', {}), 'bufr_message': Obj('BufrMessage', {'sections': secs})}, self_class='FlatJsonRenderer')
+    rr.instance('FlatJsonRenderer._render_bufr_message passes every parameter value through unchanged')
+    want = [['SIG', 'LEN'], ['SL3', 'NSUB', 'DESCS'], ['SL4', 'VALUES_ALL'], ['STOP']]
+    got = None
+    if len(res) == 1 and res[0].ok and isinstance(res[0].value, list) and all(isinstance(x, list) for x in res[0].value):
+        got = [[repr(v) for v in sec] for sec in res[0].value]
+    if got != want:
+        rr.fail('FlatJsonRenderer._render_bufr_message', fm.where, 'a message with parameters %s is rendered as %s: the flat JSON must carry every parameter value '
+                '(and the decoded value lists) unchanged, section by section' % (want, got if got is not None else [r.describe() if not r.ok else repr(r.value) for r in res]))
     # codec agreement, folded over all 256 byte values
     enc = repo.own_method('EntityEncoder', 'default')
     bad = None
@@ -128,5 +139,7 @@ def run(repo, check):
     share(check, repo, c19.rule_r1, 'C03.R6', 'reader and writer agree per type and width (shared with C19.R1)', args=(check.tier,))
     share(check, repo, c05.rule_r2, 'C03.R7', 'compressed columns: all-equal shortcut never drops a missing entry (shared with C05.R2)')
     share(check, repo, c01.rule_r6, 'C03.R8', 'decoder arithmetic of the numeric primitives (shared with C01.R6)')
+    from sa.rules import columns
+    share(check, repo, columns.rule_columns, 'C03.R9', args=(check.tier, 'C03.R9'))
     check.assumptions = ['range refusal itself is bitstring\'s: a value handed to it unchanged that does not fit the field raises (trusted base)',
                          'the half-unit quantisation bound and the byte-identity of repeated round trips are runtime facts and are not decided']
